@@ -291,10 +291,17 @@ func (c kase) shapeClass() string {
 	case !t.Variadic && len(c.Args) > len(t.Params):
 		return "too-many-args"
 	case def != "":
-		if len(c.Args) == 0 && strings.HasSuffix(def, "param") {
-			return def + "-no-args"
+		// which user-defined type the call actually meets: a parameter that an argument is converted
+		// for (reflect.Call comes first), else a byte-slice result, else nothing harmful
+		for i := range c.Args {
+			if w := t.paramWire(i); strings.Contains(w, "'") && w != "[u8]'" {
+				return "defined-type-param"
+			}
 		}
-		return def
+		if len(t.Results) > 0 && strings.Contains(t.Results[0].Wire, "'") && kindCode(t.Results[0].Wire) == "[u8]" {
+			return "defined-byte-slice-result"
+		}
+		return "defined-type-not-exercised"
 	}
 	v := "n"
 	if t.Variadic {
@@ -333,14 +340,20 @@ func valClass(a aval) string {
 	return "nonneg-int"
 }
 
-// paramKind: kind code of the parameter that receives argument i
-func (f fspec) paramKind(i int) string {
+// paramWire: type of the parameter that receives argument i (the variadic element for the tail)
+func (f fspec) paramWire(i int) string {
 	if f.Variadic && i >= len(f.Params)-1 {
 		w := f.Params[len(f.Params)-1].Wire
-		return kindCode(w[1 : len(w)-1])
+		return w[1 : len(w)-1]
 	}
-	return kindCode(f.Params[i].Wire)
+	if i >= len(f.Params) {
+		return ""
+	}
+	return f.Params[i].Wire
 }
+
+// paramKind: its kind code
+func (f fspec) paramKind(i int) string { return kindCode(f.paramWire(i)) }
 
 func oracle(c kase, res implResult, rep *hx.Report) {
 	t := c.target()
